@@ -206,6 +206,8 @@ def rule_watched_where_restart_looks(ctx):
     missing = sorted(m.name for m in rescanned - (watched or set()))
     ctx.check(not missing, wk.fq, "on resume, the directory of every file that a restart rescans is watched",
               f"directories of files in state {missing} are not handed to the watcher when a director resumes a database: an up-to-date step is skipped, so create_dirs never watches its output directory either, and removing or editing such a file is seen by a restart (rescan_files) but not by a watch-mode rebuild", f"watched states ⊇ rescanned states ({sorted(m.name for m in rescanned)})", where=ctx.where_of(wk))
+    wloops = [l for l in ast.walk(wk.node) if isinstance(l, (ast.For, ast.AsyncFor)) and any(callee_name(c) == "watch_dir" for c in calls_in(l))]
+    ctx.check(bool(wloops), wk.fq, "every selected directory is handed to watch_dir", "the selection is computed but nothing is watched", "loop with workflow.watch_dir(...)")
     dl = ctx.prog.func("watcher.AsyncInotifyWrapper.dir_loop")
     ok = False
     for w in ast.walk(dl.node):
@@ -371,10 +373,11 @@ RULES = [
     Rule("R-C14-3", "event folding keeps the sets disjoint", rule_event_folding, min_instances=15),
     Rule("R-C14-5", "a removed directory takes the watches of its subtree with it", rule_subtree_watches_go_with_directory, min_instances=4),
     Rule("R-C14-6", "the watcher does not forget what it could not hash", rule_unsettled_paths_kept, min_instances=3),
-    Rule("R-C14-4", "the watcher looks where a restart looks", rule_watched_where_restart_looks, min_instances=6),
+    Rule("R-C14-4", "the watcher looks where a restart looks", rule_watched_where_restart_looks, min_instances=7),
 ]
 
 MUTANTS = [
+    Mutant("known-dirs-selected-not-watched", "startup.py", in_function("watch_known_dirs", lambda t: __import__("re").sub(r"\n( +)workflow\.watch_dir\(([^\n]*)\)\n", lambda m: "\n" + m.group(1) + "pass\n", t, count=1) if "workflow.watch_dir(" in t else None), ("R-C14-4",)),
     Mutant("ignored-clears-by-path", "watcher.py", in_function("AsyncInotifyWrapper.change_loop", replace_once("                if self.watches.get(path) is event.watch:\n                    self.watches[path] = None\n", "                self.watches[path] = None\n")), ("R-C14-5",)),
     Mutant("adopted-inputs-not-watched", "workflow.py", in_function("Workflow._resolve_supply_file", replace_once("            detached = False\n            self.watch_dir(Path(path).parent)\n", "            detached = False\n")), ("R-C14-8",)),
     Mutant("file-events-not-queued", "watcher.py", in_function("AsyncInotifyWrapper.change_loop", replace_once("            else:\n                self.change_queue.put_nowait((change, path))\n", "            else:\n                pass\n")), ("R-C14-7",)),
